@@ -48,4 +48,45 @@ def addsOnce (sh : Shape) : Bool :=
 /-- every polynomial is followed by a completion decision -/
 def publishesPerPoly (sh : Shape) : Bool := sh.body.contains K.publish
 
+/-! ### second generation of shapes (classgroup, classical QS, ECM read as a unit) -/
+
+/-- the poll comes before any add of the unit and outside the polynomial loop: required of every shape whose poll only
+leaves the UNIT (closure `return`): after an abort request the later units run their `pre` up to the poll and nothing else -/
+def pollFirst (sh : Shape) : Bool := sh.pre.contains K.poll && !sh.pre.contains K.add
+
+/-- interleaving of the adds of the two arms of a fork-join as chosen by the scheduler (`true` = the next add comes from the
+first arm); when an arm or the choices are exhausted the rest follows in order -/
+def merge : List ρ → List ρ → List Bool → List ρ
+  | [], b, _ => b
+  | x :: a, [], _ => x :: a
+  | x :: a, y :: b, [] => x :: a ++ y :: b
+  | x :: a, y :: b, c :: cs => if c then x :: merge a (y :: b) cs else y :: merge (x :: a) b cs
+
+/-- each arm of the fork-join only adds (per small block), and there are two of them -/
+def forkOk (f : ForkShape) : Bool := f.arms == [[K.add], [K.add]]
+
+/-- the coordinating loop of a fork-join driver as a shape: the arms add, then `after` -/
+def forkShape (f : ForkShape) : Shape := { pre := [], body := [K.add], post := f.after }
+
+/-- one large block pair as a unit: without a pool the two arms one after the other; with a pool ONE sequence of adds, the
+interleaving `ch` of the two arms (lock order) -/
+def forkUnit (f : ForkShape) (b : List ρ × List ρ × List Bool) : List (List ρ) :=
+  if f.forked then [merge b.1 b.2.1 b.2.2] else [b.1, b.2.1]
+
+/-- program of the coordinating thread: `blocks` = (relations of the forward arm, of the backward arm, interleaving) per large block -/
+def compileFork (f : ForkShape) (blocks : List (List ρ × List ρ × List Bool)) : List (Act ρ) :=
+  compileShape (forkShape f) (blocks.map (forkUnit f))
+
+def initFork (f : ForkShape) (s0 : σ) (blocks : List (List ρ × List ρ × List Bool)) : Cfg ρ σ :=
+  initShape (forkShape f) s0 [blocks.map (forkUnit f)]
+
+/-- a curve of ECM as a unit of `ecmUnit`: no polynomial when it reports nothing, one polynomial with the one report otherwise -/
+def curveUnit : Option ρ → List (List ρ)
+  | none => []
+  | some r => [[r]]
+
+/-- every driver's shape under the name used in the generated list `leavesLoop` -/
+def namedShapes : List (String × Shape) :=
+  Ymq.Gen.SchedShape.all ++ [("qs-mt", forkShape qsMtFork), ("qs-st", forkShape qsStFork), ("ecm", ecmUnit)]
+
 end Ymq.Sched
